@@ -1191,6 +1191,15 @@ fn random_script(rng: &mut Rng) -> Case {
             }
         }
     }
+    // most scripts end with a signal to a process that (probably) still holds tempfiles
+    if rng.chance(3, 4) {
+        let p = if exists[1] && rng.chance(1, 2) { 1 } else { 0 };
+        let sig: &[u8] = *rng.pick(&[b"T" as &[u8], b"Q", b"I"]);
+        ops.push(mk_op(p, b'S', 0, if rng.chance(1, 3) { b'x' } else { b'-' }, sig));
+        if exists[1] && rng.chance(1, 2) {
+            ops.push(mk_op(1 - p, b'S', 0, b'-', b"T"));
+        }
+    }
     script(mode, ops)
 }
 
